@@ -188,11 +188,12 @@ CHECKS_EXTRA = {
     "C20": ("stateless schedule exploration with iterative preemption bounding: real threads running real utype calls under a "
             "controlled scheduler (sys.settrace line events of the instrumented shared-state functions, one baton), every "
             "schedule within the bound executed on fresh state",
-            "7 scenarios (first parse of classes with pending forward references, module level and function-local, from one "
+            "8 scenarios (first parse of classes with pending forward references, module level and function-local, from one "
             "end and from both ends of a mutual recursion; first calls of a decorated function with forward-referenced "
             "parameter / return types; concurrent decoration of one function; conversions racing a registration in the "
-            "process-wide converter registry) x every interleaving of 2 threads with <= 1 preemption (quick) / 3 threads with "
-            "<= 2 preemptions (thorough): each call's outcome equals its outcome when run alone (for the registry: before or "
+            "process-wide converter registry) x every interleaving of 2 threads with <= 1 preemption (quick) / of 2 threads "
+            "with <= 2 preemptions and of 3 threads with <= 1 preemption (thorough; 3 threads with 2 preemptions is ~10^6 "
+            "schedules per scenario and is not claimed): each call's outcome equals its outcome when run alone (for the registry: before or "
             "after the registration), no extra exception, no hang, and a solo call after all threads finished gives the "
             "baseline. Evidence reports schedules per scenario and scheduling points per execution.",
             "Trusted: the scheduler (replay divergence is a hard error; a failing schedule must fail again on replay). "
